@@ -1,6 +1,7 @@
 package c08
 
 import (
+	"google.golang.org/grpc"
 	"context"
 	"fmt"
 	"sort"
@@ -71,7 +72,21 @@ func TestBookingIntersects(t *testing.T) {
 		}
 		ctx, cancel := context.WithCancel(context.Background())
 		defer cancel()
-		ch := m.PullBookings(ctx, resource.WithInclude(include), resource.WithBackpressure(backpressure))
+		// the stream comes either from the model with the predicate the server would build, or from the server's own
+		// PullBookings RPC with booking_intersects (it builds the predicate itself)
+		viaServer := rapid.Bool().Draw(t, "pullViaServer")
+		var ch <-chan bookingpb.BookingChange
+		if viaServer {
+			out := make(chan bookingpb.BookingChange)
+			ch = out
+			st := &pullBookingsStream{ctx: ctx, out: out}
+			go func() {
+				defer close(out)
+				_ = srv.PullBookings(&traits.ListBookingsRequest{Name: "n", BookingIntersects: query}, st)
+			}()
+		} else {
+			ch = m.PullBookings(ctx, resource.WithInclude(include), resource.WithBackpressure(backpressure))
+		}
 		view := map[string]*traits.Booking{}
 		done := make(chan string, 1)
 		synced := make(chan struct{})
@@ -171,7 +186,7 @@ func TestBookingIntersects(t *testing.T) {
 			listed = append(listed, b.Id)
 			listedBookings = append(listedBookings, b)
 		}
-		desc := fmt.Sprintf("query=[%d,%d) bookings=%v backpressure=%v", qlo, qhi, model, backpressure)
+		desc := fmt.Sprintf("query=[%d,%d) bookings=%v backpressure=%v stream from the server's PullBookings=%v", qlo, qhi, model, backpressure, viaServer)
 		if fmt.Sprint(listed) != fmt.Sprint(want) {
 			t.Fatalf("%s: ListBookings returned %v, interval arithmetic says %v", desc, listed, want)
 		}
@@ -202,6 +217,25 @@ func TestBookingIntersects(t *testing.T) {
 		lib.Ev.Class("booking:period predicate")
 		lib.Ev.Case(nt, func() any { return "booking " + desc })
 	})
+}
+
+// pullBookingsStream is the server side of a PullBookings call: every change of every response is handed on.
+type pullBookingsStream struct {
+	grpc.ServerStream
+	ctx context.Context
+	out chan<- bookingpb.BookingChange
+}
+
+func (s *pullBookingsStream) Context() context.Context { return s.ctx }
+func (s *pullBookingsStream) Send(r *traits.PullBookingsResponse) error {
+	for _, c := range r.Changes {
+		select {
+		case s.out <- bookingpb.BookingChange{ChangeType: c.Type, OldValue: c.OldValue, NewValue: c.NewValue}:
+		case <-s.ctx.Done():
+			return s.ctx.Err()
+		}
+	}
+	return nil
 }
 
 // rapidIntersect mirrors what the server's predicate calls.
